@@ -360,6 +360,49 @@ def stated_degree(sname, variant, D):
     return D - 2
 
 
+def check_shared_base_histories(acc, spec, base, ndim):
+    """Construction histories on SHARED intermediate objects: one tensor scheme is built from the base and every ordering of
+    the derived-scheme constructors is applied to that same object.  After every step the base and the tensor scheme must be
+    bitwise what they were (constructors must not write into their arguments), and the constructed scheme must be bitwise the
+    one obtained from a fresh intermediate."""
+    import itertools
+    import src.quadrature as q
+    if ndim == 2:
+        mk = q.ProductScheme2D
+        ctors = [('DuffyScheme2D', 'symmetric=False', lambda P: q.DuffyScheme2D(P, False)),
+                 ('DuffyScheme2D', 'symmetric=True', lambda P: q.DuffyScheme2D(P, True))]
+    else:
+        mk = q.ProductScheme3D
+        ctors = [('DuffySchemeIdentical3D', 'symmetric_xy=False', lambda P: q.DuffySchemeIdentical3D(P, False)),
+                 ('DuffySchemeIdentical3D', 'symmetric_xy=True', lambda P: q.DuffySchemeIdentical3D(P, True)),
+                 ('DuffySchemeTouch3D', '-', lambda P: q.DuffySchemeTouch3D(P))]
+    try:
+        fresh = [f(mk(base)) for _, _, f in ctors]
+    except Exception:  # noqa (reported by the ordinary construction clause)
+        return
+    for perm in itertools.permutations(range(len(ctors))):
+        b0 = (np.array(base.points, copy=True), np.array(base.weights, copy=True))
+        P = mk(base)
+        p0 = (np.array(P.points, copy=True), np.array(P.weights, copy=True))
+        for step, i in enumerate(perm):
+            sname, variant, f = ctors[i]
+            acc.count('shared-base-history')
+            try:
+                sch = f(P)
+                untouched = (np.array_equal(P.points, p0[0]) and np.array_equal(P.weights, p0[1])
+                             and np.array_equal(base.points, b0[0]) and np.array_equal(base.weights, b0[1]))
+                same = np.array_equal(sch.points, fresh[i].points) and np.array_equal(sch.weights, fresh[i].weights)
+                bad = None if (untouched and same) else ('constructor modified its argument' if not untouched else 'scheme differs from the one built on a fresh tensor scheme')
+            except Exception as ex:  # noqa
+                bad = 'raised {!r}'.format(ex)
+            if bad:
+                acc.fail(sname, variant, 'order' + ''.join(map(str, perm[:step + 1])), 'shared-base-history', float('inf'),
+                         '{} {} as step {} of construction order {} on ONE shared {} built from base {}: {}'.format(
+                             sname, variant, step + 1, [ctors[j][0] + ' ' + ctors[j][1] for j in perm], mk.__name__, spec[0], bad),
+                         {'base': list(spec[:3]), 'scheme': sname, 'variant': variant, 'word': '', 'shared_base': ndim})
+                return
+
+
 def run_task(task):
     spec, group, tier = task
     cfg = CFG[tier]
@@ -420,6 +463,8 @@ def run_task(task):
         if wrule is not None or D < 0:
             continue  # not usable as a polynomial 1-D base
         words = cfg['w2'] if ndim == 2 else cfg['w3']
+        if (sname, variant) in (('DuffyScheme2D', 'symmetric=False'), ('DuffySchemeIdentical3D', 'symmetric_xy=False')):
+            check_shared_base_histories(acc, spec, base, ndim)
         check_mirror_structure(acc, spec, s0, sname, variant, words, ndim)
         boxes = (cfg['sq2'] if sym else cfg['b2']) if ndim == 2 else (cfg['sq3'] if sym else cfg['b3'])
         for word in words:
@@ -704,6 +749,11 @@ def replay(ctx, data):
         print('raised', repr(ex))
         return False
     ndim = 1 if sname == 'QuadScheme1D' else (2 if '2D' in sname else 3)
+    if data.get('shared_base'):
+        check_shared_base_histories(acc, spec, base, data['shared_base'])
+        for k, v in acc.fails.items():
+            print(v[1])
+        return not acc.fails
     if data.get('structure'):
         check_mirror_structure(acc, spec, s0, sname, variant, [word], ndim)
     elif data.get('weightsum'):
